@@ -185,7 +185,11 @@ func (m *Machine) verifyOnce() {
 			fr.lets[l.Name] = v
 			bind[l.Name] = v
 		}
-		for _, r := range m.fc.Requires {
+		reqs := m.fc.Requires
+		if m.reject != nil {
+			reqs = []*Clause{m.reject}
+		}
+		for _, r := range reqs {
 			m.assumingPre = true
 			v, ok := m.evalClause(st, r, bind)
 			m.assumingPre = false
@@ -313,6 +317,11 @@ func (m *Machine) topReturn(st *State, fr *Frame, rets []Value) {
 	m.retPaths++
 	m.coverPCs = append(m.coverPCs, append([]*Term{}, st.pc...))
 	if m.fc == nil {
+		return
+	}
+	if m.reject != nil {
+		m.recordObl(st, fr, "reject", m.reject.Label, m.ctx.F, m.reject.Tags,
+			"for inputs with ("+m.reject.Raw+") the function must not return normally (it panics instead)", false)
 		return
 	}
 	// lock balance: the function returns holding exactly the mutexes it was entered with
